@@ -2,6 +2,7 @@ package main
 
 import (
 	"fmt"
+	"regexp"
 	"go/token"
 	"go/types"
 	"sort"
@@ -213,6 +214,7 @@ type Gen struct {
 	curPos  token.Pos
 	bodyless bool
 	strConsts map[string]Val
+	curLoop *loopInfo
 	famLeaf map[string]IntInfo
 	strBases []Term
 	closures map[*ssa.MakeClosure]*ssa.MakeClosure
@@ -375,10 +377,15 @@ func (g *Gen) freshPart(fam, sort string) Term {
 	return t
 }
 
+var reByte = regexp.MustCompile(`\bbyte\b`)
+var reRune = regexp.MustCompile(`\brune\b`)
+
 func typeKey(t types.Type) string {
-	return types.TypeString(t, func(p *types.Package) string {
+	s := types.TypeString(t, func(p *types.Package) string {
 		return strings.TrimPrefix(p.Path(), modPath+"/")
 	})
+	s = reByte.ReplaceAllString(s, "uint8")
+	return reRune.ReplaceAllString(s, "int32")
 }
 
 // family sort for a component stored behind Ref (aHeap/aGlobal) or base+idx (aElem)
